@@ -180,8 +180,11 @@ def lib_case(draw):
     if mn is None:
         mn = draw(st.integers(0, value))
     seed = draw(st.integers(0, 1 << 40))
-    # the proof shapes the test must cover are forced by a hash selector (rp_common.hsel): 1/8 each
-    sel = RC.hsel("C10lib", seed) % 8
+    blind = draw(gens.seckey_valid)
+    nonce = draw(gens.hexbytes(32))
+    extra = draw(st.sampled_from([0, 0, 1, 7, 32, 33]).flatmap(lambda n: gens.hexbytes(n)))
+    # the proof shapes the test must cover are forced by a hash selector over ALL drawn fields (rp_common.hsel): 1/8 each
+    sel = RC.hsel("C10lib", seed, blind, nonce, extra, value, mn, exp, mb) % 8
     if sel == 0:
         exp, mb, mn = 0, 64, 0                          # 64-bit mantissa (5126-byte proof)
     elif sel == 1:
@@ -190,8 +193,8 @@ def lib_case(draw):
         exp, mb, value, mn = 0, 0, value & 1, 0         # mantissa 1 (98 bytes: every bit is flipped)
     elif sel == 3:
         exp, mb, value, mn = 0, 3 + (seed % 6), value & 0xFF, 0      # 259..643 bytes: 256 sampled flips
-    return {"value": value, "min_value": mn, "exp": exp, "min_bits": mb, "blind": draw(gens.seckey_valid), "nonce": draw(gens.hexbytes(32)),
-            "msg_len": draw(st.sampled_from([0, 0, 1, 32, 100])), "extra": draw(st.sampled_from([0, 0, 1, 7, 32, 33]).flatmap(lambda n: gens.hexbytes(n))),
+    return {"value": value, "min_value": mn, "exp": exp, "min_bits": mb, "blind": blind, "nonce": nonce,
+            "msg_len": draw(st.sampled_from([0, 0, 1, 32, 100])), "extra": extra,
             "gen": draw(RC.gen_spec), "seed": seed, "paint": draw(st.sampled_from([0xFF, 0xFF, 0x00, 0xA5]))}
 
 
@@ -303,19 +306,25 @@ def _tiny_points():
 TINY = _tiny_points()
 
 
+F3_MANT = [1, 1, 1, 3, 3, 3, 5, 5, 7, 9, 11, 17, 63]
+
+
 @st.composite
 def ref_case(draw, adv=None):
-    seed = draw(st.integers(0, 1 << 40))
-    a = adv or ADV[RC.hsel("C10adv", seed) % len(ADV)]      # class by hash selector (rp_common.hsel), not by Hypothesis' clumpy sampled_from
-    mant = RC.weighted(draw, [(10, st.sampled_from(MANT_SMALL)), (1, st.sampled_from([63, 64, 64])), (1, st.integers(1, 64))])
-    if a == "f3":
-        mant = draw(st.sampled_from([1, 1, 1, 3, 3, 3, 5, 5, 7, 9, 11, 17, 63]))
-    if a in ("honest", "overflow") and draw(st.sampled_from([0, 1, 2, 3, 4, 5, 6, 7])) == 0:
-        mant = 64
-    return {"adv": a, "mant": mant, "exp": draw(st.sampled_from([0, 0, 0, 1, 2, 3, 9, 18])), "minsel": draw(st.sampled_from(["none", "none", "zero", "small", "max"])),
-            "v": draw(st.one_of(st.integers(0, U64), gens.u64_edge)), "seed": seed, "param": draw(st.integers(0, 1 << 16)),
+    case = {"mant": RC.weighted(draw, [(10, st.sampled_from(MANT_SMALL)), (1, st.sampled_from([63, 64, 64])), (1, st.integers(1, 64))]),
+            "exp": draw(st.sampled_from([0, 0, 0, 1, 2, 3, 9, 18])), "minsel": draw(st.sampled_from(["none", "none", "zero", "small", "max"])),
+            "v": draw(st.one_of(st.integers(0, U64), gens.u64_edge)), "seed": draw(st.integers(0, 1 << 40)), "param": draw(st.integers(0, 1 << 16)),
             "forged": draw(st.sampled_from(["small", "small", "small", "mid", "rand"])), "gen_k": draw(st.one_of(st.just(0), gens.seckey_valid)),
             "extra": draw(st.sampled_from([0, 0, 1, 32]).flatmap(lambda n: gens.hexbytes(n))), "paint": draw(st.sampled_from([0xFF, 0xFF, 0x00, 0xA5]))}
+    # the adversarial class is selected by a hash over ALL drawn fields (rp_common.hsel): uniform whatever Hypothesis' draws look like
+    h = RC.hsel("C10adv", sorted((k, str(v)) for k, v in case.items()))
+    a = adv or ADV[h % len(ADV)]
+    if a == "f3":
+        case["mant"] = F3_MANT[(h >> 8) % len(F3_MANT)]
+    if a in ("honest", "overflow") and (h >> 16) % 8 == 0:
+        case["mant"] = 64
+    case["adv"] = a
+    return case
 
 
 def clamp_mant(mant, exp):
@@ -334,7 +343,7 @@ def build_ref(env, case):
     """-> dict(proof, C, H, g, extra, nonce, expect, twins=[(tag, bytes, expect)], classes) or None (prover gave up: degenerate hash / point)"""
     a = case["adv"]
     seed = case["seed"]
-    param = RC.hsel("C10param", seed, case["param"]) & 0xFFFFFF          # sub-selectors (param % k) uniform whatever the drawn integer looks like
+    param = RC.hsel("C10param", sorted((k, str(v)) for k, v in case.items())) & 0xFFFFFF      # sub-selectors (param % k) uniform whatever the drawn integers look like
     exp, mant = case["exp"], case["mant"]
     classes = ["adv:" + a]
     out = {"twins": [], "classes": classes, "nonce": ec.sha256(b"C10 nonce" + seed.to_bytes(8, "big")), "extra": bytes.fromhex(case["extra"]), "expect": None, "f3": False}
@@ -697,9 +706,9 @@ def _only(adv):
 
 
 TESTS = [
-    Test("lib_mutations", lib_case, run_lib, quick=64, thorough=1200, max_workers=16,
+    Test("lib_mutations", lib_case, run_lib, quick=120, thorough=1200, max_workers=16,
          must_cover=["flips:every_bit", "flips:sampled256", "mant=64", "mant=exact", "mant=1", "trunc_ext", "extra_mut", "other_commit_gen", "verdict:accept", "verdict:reject"]),
-    Test("ref_prover", ref_case, run_ref, quick=420, thorough=16000, max_workers=16,
+    Test("ref_prover", ref_case, run_ref, quick=700, thorough=16000, max_workers=16,
          must_cover=["small_s", "s_plus_n_twin", "honest:accepted", "exact:accepted", "exp_hi:rejected", "reserved:rejected", "mant_hi:rejected", "overflow:just_below", "overflow:at",
                      "overflow:above", "overflow:accepted", "overflow:rejected", "exp_overflow:rejected", "spare_bits:rejected", "trailing:rejected", "digit_x_ge_p", "digit_off_curve",
                      "digit_x_plus_p:accepted", "digit_x_plus_p_twin", "scalar_zero:rejected", "last_inf:rejected", "wrong_witness:rejected", "ref_sender_rewound", "mant=33-64"]),
